@@ -291,7 +291,10 @@ def run(tier, replay=None):
         return run_replay(chk, mods, replay)
 
     dshapes = [(2, 2), (2, 3), (3, 2), (3, 3), (2, 5), (5, 2)] + ([(3, 4), (4, 3)] if tier == "quick" else [(3, 4), (4, 3), (4, 4)])
-    sshapes = [(2, 2), (2, 3), (3, 3)] + ([] if tier == "quick" else [(3, 4), (4, 3), (2, 5), (5, 2)])
+    # (shape, algorithms): the two 12-pixel shapes (531441 ternary images each) are split between the two kernels
+    both = '{"sparse", "splat"}'
+    sshapes = [((2, 2), both), ((2, 3), both), ((3, 3), both)] + ([] if tier == "quick" else
+               [((2, 5), both), ((5, 2), both), ((3, 4), '{"sparse"}'), ((4, 3), '{"splat"}')])
     allcases = []
     for (ns, nf) in dshapes:
         res = common.run_tlc("ConnPix", dense_cfg(ns, nf), workers=16, timeout=3000, coverage=(tier != "quick" and ns * nf <= 9))
@@ -304,24 +307,22 @@ def run(tier, replay=None):
             raise common.MachineryError("ConnPix %dx%d: emitted %d cases (%d unparsable), expected %d" % (
                 ns, nf, len(cs), bad, 2 * 2 ** (ns * nf)))
         allcases += cs
-    for (ns, nf) in sshapes:
-        res = common.run_tlc("SparseCP", sparse_cfg(ns, nf), workers=16, timeout=3000)
+    for ((ns, nf), algs) in sshapes:
+        res = common.run_tlc("SparseCP", sparse_cfg(ns, nf, algs=algs), workers=16, timeout=3000)
         chk.add_tlc("SparseCP %dx%d" % (ns, nf), res)
         if res.violated:
             handle_model_violation(chk, "SparseCP", res)
         cs, bad = cases_from_sparse(res)
-        if bad or len(cs) != 2 * 3 ** (ns * nf):
+        if bad or len(cs) != (2 if algs == both else 1) * 3 ** (ns * nf):
             raise common.MachineryError("SparseCP %dx%d: emitted %d cases (%d unparsable)" % (ns, nf, len(cs), bad))
         allcases += cs
     t0 = time.time()
     replay_inprocess(chk, allcases, mods)
     chk.notes["replay_s"] = round(time.time() - t0, 1)
-    # sanitizer build: everything in thorough, a seeded third in quick
-    if tier == "quick":
-        rng = np.random.default_rng(common.seed())
-        sel = [c for c in allcases if rng.random() < 0.34]
-    else:
-        sel = allcases
+    # sanitizer build: a seeded subset (a third in quick, a fifth of the ~1.9M cases in thorough)
+    rng = np.random.default_rng(common.seed())
+    frac = 0.34 if tier == "quick" else 0.2          # ASan runs the kernels ~3x slower: a seeded subset
+    sel = [c for c in allcases if rng.random() < frac]
     replay_asan(chk, sel, "small")
 
     # certificates for large images
